@@ -34,7 +34,7 @@ FIRST_KINDS = (None, '4c 4e 4g', '4r', '8.cc#L')     # first data cell of the sc
 
 
 def build(M: int, lens: tuple, opening: bool, pickup: int, final: bool, kern_spines: int = 1, text_spine: bool = False,
-          first_kind: int = 0, sig_rows=(('*clefG2',), ('*M4/4',)), number_bars: bool = True) -> Score:
+          first_kind: int = 0, blanks: int = 0, sig_rows=(('*clefG2',), ('*M4/4',)), number_bars: bool = True) -> Score:
     """M barline-delimited measures with lens[m] data rows each.
 
     opening : the first measure has its own barline (=1) in front of it
@@ -79,7 +79,15 @@ def build(M: int, lens: tuple, opening: bool, pickup: int, final: bool, kern_spi
     if final:
         lines.append(Line('bar', ['=='] * ncol, n_bar=0))
     lines.append(Line('term', ['*-'] * ncol))
-    text = '\n'.join('\t'.join(ln.cells) for ln in lines) + '\n'
+    # blanks: 1 = an empty line after the header block, 2 = an empty line in front of every barline, 3 = both
+    out = []
+    for i, ln in enumerate(lines):
+        if (blanks & 2) and ln.kind == 'bar':
+            out.append('')
+        out.append('\t'.join(ln.cells))
+        if (blanks & 1) and i == len(sigs):
+            out.append('')
+    text = '\n'.join(out) + '\n'
     return Score(text, lines, headers, sigs)
 
 
